@@ -86,8 +86,21 @@ IsFull(it) == it.k = "slice" /\ it.a = NoneI /\ it.b = NoneI /\ it.s = NoneI
 \* index tensors keep negative entries at the pinned commit; the repair normalises them
 NormList(q, n) == IF Variant = "pinned" THEN q ELSE [j \in DOMAIN q |-> IF q[j] < 0 THEN q[j] + n ELSE q[j]]
 
+\* _normalize_indices on a plain int (the "pairs of indices" branch): unchanged at the pinned commit
+NormPairInt(i, n) == IF Variant = "pinned" THEN i ELSE NormIndex(i, n)
+\* positions a row/col item contributes to the "pairs of indices" branch (an int is a length-1 sequence: it broadcasts)
+PairPos(it, n) == IF it.k = "int" THEN <<NormPairInt(it.v, n)>> ELSE NormList(it.v, n)
+
 \* positions a row/col item contributes to the meshgrid branch
 GridPos(it, n) == IF it.k = "slice" THEN SlicePos(n, it.a, it.b, it.s) ELSE NormList(it.v, n)
+
+\* covariance rows selected by the meshgrid branch.  With an index tensor among the batch items, cov[batch + (ind,)]
+\* ZIPS the batch tensor with `ind` (torch advanced indexing); the repaired form indexes the batch dimensions first.
+HasList(items) == \E j \in DOMAIN items : items[j].k = "list"
+GridRows(crow, bidx, ind) ==
+  IF Variant = "pinned" \/ ~HasList(bidx) THEN TIndex(crow, bidx \o <<[k |-> "list", v |-> ind]>>)
+  ELSE LET byBatch == TIndex(crow, bidx)
+       IN IF byBatch.err THEN Err ELSE TIndex(byBatch, <<[k |-> "ell"], [k |-> "list", v |-> ind]>>)
 
 GetItemMT(x, idx0) ==
   LET rank == Len(x.mean.shape)
@@ -121,15 +134,17 @@ GetItemMT(x, idx0) ==
                  LET rp == GridPos(row, nr)
                      cp == GridPos(col, nc)
                      ind == [p \in 1..(Len(rp) * Len(cp)) |-> rp[((p - 1) \div Len(cp)) + 1] * nc + cp[((p - 1) % Len(cp)) + 1]]
-                 IN MkMT(newMean, TIndex(x.crow, bidx \o <<[k |-> "list", v |-> ind]>>), x.inter)
-            [] row.k = "list" /\ col.k = "list" ->
-                 LET rp == NormList(row.v, nr)
-                     cp == NormList(col.v, nc)
+                 IN MkMT(newMean, GridRows(x.crow, bidx, ind), x.inter)
+            [] {row.k, col.k} \subseteq {"int", "list"} /\ "list" \in {row.k, col.k} ->
+                 \* "pairs of indices": index tensor x index tensor, or an index tensor paired with a plain int
+                 \* (_normalize_indices handles both; the int then broadcasts against the tensor in row * nc + col)
+                 LET rp == PairPos(row, nr)
+                     cp == PairPos(col, nc)
                      m  == Max(Len(rp), Len(cp))
                      B(q, j) == IF Len(q) = 1 THEN q[1] ELSE q[j]            \* tensor broadcasting of row*nc + col
                  IN IF Len(rp) # Len(cp) /\ Len(rp) # 1 /\ Len(cp) # 1 THEN MkErr
                     ELSE MkMVN(newMean, TIndex(x.crow, bidx \o <<[k |-> "list", v |-> [j \in 1..m |-> B(rp, j) * nc + B(cp, j)]]>>))
-            [] OTHER -> MkErr      \* int x index-tensor combinations: outside the enumerated families
+            [] OTHER -> MkErr      \* kinds outside the alphabet (bool masks, nested lists): not enumerated
 
 \* MultivariateNormal.__getitem__ (plain MVN reached by indexing): event dimension is the last one
 GetItemMVN(x, idx0) ==
@@ -157,6 +172,20 @@ Ints(n) == {[k |-> "int", v |-> i] : i \in (-(n + 1))..n}
 IdxLists(n) == {[k |-> "list", v |-> q] : q \in UNION {[1..m -> (-n)..(n - 1)] : m \in 1..2}}
 Ell == [k |-> "ell"]
 BatchItems == IF Batch = <<>> THEN {<<>>} ELSE {<<[k |-> "int", v |-> 0]>>, <<[k |-> "int", v |-> -1]>>, <<Full>>, <<Sl(1, NoneI, NoneI)>>}
+\* an index tensor in the batch position: the batch members in reverse order, and the last member counted from the end.
+\* Offered in front of event items that are not index tensors themselves: a batch tensor zipped with an event tensor
+\* selects (point, task) pairs of DIFFERENT batch members, for which the property states no joint covariance.
+\* (no member twice: d[tensor, i, j] is an MVN over the selected members, and a repeated member has no independent copy)
+BatchLists(b) == {<<[k |-> "list", v |-> IF b > 1 THEN <<b - 1, 0>> ELSE <<0>>]>>, <<[k |-> "list", v |-> <<-1>>]>>}
+
+\* The kinds of index an event dimension accepts, and compact alphabets per kind: every int (incl. negative and the
+\* two out-of-range neighbours), slices that drop the first / the last element, stride and clamp, index tensors of
+\* length 1-2 over the extreme positions counted from either end.
+Kinds == {"int", "slice", "list"}
+PairSlices(n) == {Full, Sl(1, NoneI, NoneI), Sl(NoneI, -1, NoneI), Sl(NoneI, NoneI, 2), Sl(-1, n + 1, NoneI)}
+PairLists(n) == {[k |-> "list", v |-> q] : q \in UNION {[1..m -> {-n, -1, 0, n - 1}] : m \in 1..2}}
+OfKind(kd, n) == CASE kd = "int" -> Ints(n) [] kd = "slice" -> PairSlices(n) [] kd = "list" -> PairLists(n)
+PairingIdx(kr, kc, n, t) == {<<r, c>> : r \in OfKind(kr, n), c \in OfKind(kc, t)}
 
 EventIdxOf(fam, n, t) ==
   CASE fam = "int_int"     -> {<<i, j>> : i \in Ints(n), j \in Ints(t)}
@@ -170,16 +199,46 @@ EventIdxOf(fam, n, t) ==
     [] fam = "lists"       -> {<<r, c>> : r \in IdxLists(n), c \in IdxLists(t)}
                                     \cup {<<r, c>> : r \in IdxLists(n), c \in FewSlices(t)}
                                     \cup {<<r, c>> : r \in FewSlices(n), c \in IdxLists(t)}
+    \* an index tensor for one event dimension paired with a plain int for the other ("these points, last task"):
+    \* every int incl. negative and out of range x every index tensor of length 1-2 incl. negative entries
+    [] fam = "mixed"       -> {<<i, c>> : i \in Ints(n), c \in IdxLists(t)}
+                                    \cup {<<r, j>> : r \in IdxLists(n), j \in Ints(t)}
+    \* every PAIRING of index kinds for the two event dimensions over compact alphabets (used behind every batch item)
+    [] fam = "pairs"       -> UNION {PairingIdx(kr, kc, n, t) : kr \in Kinds, kc \in Kinds}
     [] fam = "small"       -> {<<i, j>> : i \in {[k |-> "int", v |-> 0], [k |-> "int", v |-> -1]}, j \in Ints(t)}
+                                    \cup {<<[k |-> "list", v |-> <<-1, 0>>], [k |-> "int", v |-> -1]>>,
+                                          <<[k |-> "int", v |-> -1], [k |-> "list", v |-> <<0, -1>>]>>,
+                                          <<[k |-> "list", v |-> <<0, -1>>], Sl(NoneI, -1, NoneI)>>}
                                     \cup {<<i>> : i \in Ints(n)} \cup {<<s>> : s \in FewSlices(n)} \cup {<<Ell>>}
                                     \cup {<<Sl(1, NoneI, NoneI), j>> : j \in Ints(t)} \cup {<<i, Sl(NoneI, -1, NoneI)>> : i \in Ints(n)}
                                     \cup {<<Sl(NoneI, NoneI, 2), Sl(1, NoneI, NoneI)>>}
 
-AllFamilies == {"int_int", "int_slice", "slice_int", "slice_slice", "one", "lists"}
+AllFamilies == {"int_int", "int_slice", "slice_int", "slice_slice", "one", "lists", "mixed"}
+
+\* the kind of an item as the alphabet sees it
+KindOf(it) == it.k
+\* THE ALPHABET IS CLOSED UNDER PAIRING: for the two event dimensions every (point kind, task kind) in Kinds x Kinds occurs,
+\* with a negative int / an index tensor with a negative entry wherever the kind allows one - in the union of all
+\* families and in the compact family that is replayed behind every batch item.  TLC evaluates this before the run.
+HasNeg(it) == CASE it.k = "int" -> it.v < 0 [] it.k = "list" -> \E j \in DOMAIN it.v : it.v[j] < 0
+                [] it.k = "slice" -> (it.a # NoneI /\ it.a < 0) \/ (it.b # NoneI /\ it.b < 0) [] OTHER -> FALSE
+PairingsCovered(S, n, t) ==
+  \A kr \in Kinds, kc \in Kinds : \A negr \in BOOLEAN, negc \in BOOLEAN :
+     \E e \in S : /\ Len(e) = 2 /\ KindOf(e[1]) = kr /\ KindOf(e[2]) = kc
+                  /\ HasNeg(e[1]) = negr /\ HasNeg(e[2]) = negc
+                  /\ ItemOK(e[1], n) /\ ItemOK(e[2], t)          \* a VALID index of that pairing
+ASSUME PairingsCovered(UNION {EventIdxOf(f, N, T) : f \in AllFamilies}, N, T)
+ASSUME PairingsCovered(EventIdxOf("pairs", N, T), N, T)
 EventIdx(n, t) ==
   IF steps > 0 THEN EventIdxOf("small", n, t)            \* later links of a chain d[i][j]...: a small representative family
   ELSE IF IdxFamily = "all" THEN UNION {EventIdxOf(f, n, t) : f \in AllFamilies}
+  ELSE IF IdxFamily = "small_pairs" THEN EventIdxOf("small", n, t) \cup EventIdxOf("pairs", n, t)
   ELSE EventIdxOf(IdxFamily, n, t)
+
+\* event items offered behind a batch index tensor: every pairing of the kinds int and slice (compact alphabets) and
+\* the small family, whatever family the run enumerates behind the basic batch items
+BatchListEvents(n, t) ==
+  {e \in EventIdxOf("small", n, t) \cup (IF steps > 0 THEN {} ELSE EventIdxOf("pairs", n, t)) : ~HasList(e)}
 
 \* index expressions offered in the current state
 Offers(x) ==
@@ -187,6 +246,8 @@ Offers(x) ==
      LET r == Len(x.mean.shape) n == x.mean.shape[r - 1] t == x.mean.shape[r]
      IN IF r = 2 THEN EventIdx(n, t)
         ELSE {b \o e : b \in BatchItems, e \in EventIdx(n, t)} \cup {b : b \in BatchItems \ {<<>>}}
+             \cup {b \o e : b \in BatchLists(x.mean.shape[1]), e \in BatchListEvents(n, t)}
+             \cup BatchLists(x.mean.shape[1])
   ELSE
      LET r == Len(x.mean.shape)
      IN IF r = 1 THEN {<<i>> : i \in Ints(x.mean.shape[1])} \cup {<<s>> : s \in FewSlices(x.mean.shape[1])} ELSE {}
